@@ -3,6 +3,9 @@
 use crate::core::Ctx;
 
 pub mod c01;
+pub mod c02;
+pub mod c05;
+pub mod c06;
 
 pub struct PropInfo {
     pub id: &'static str,
@@ -40,7 +43,7 @@ pub const DEFAULT: PropInfo = PropInfo {
     watchdog_s: 120,
 };
 
-pub static REGISTRY: &[&PropInfo] = &[&c01::INFO];
+pub static REGISTRY: &[&PropInfo] = &[&c01::INFO, &c02::INFO, &c05::INFO, &c06::INFO];
 
 pub fn lookup(id: &str) -> Option<&'static PropInfo> {
     REGISTRY.iter().copied().find(|p| p.id == id)
